@@ -132,6 +132,7 @@ func (d *driver) await(st step) {
 		what := "the room's answer was sent after it had seen the request and has been processed by the serve loop"
 		d.c.Violate(stall.Key(stuck[0]), "%s(%s) does not return although %s; its context is never cancelled:\n%s", cl.op, cl.addr, what, stuck[0].Stack)
 		d.c.Count("stalled_calls", 1)
+		d.w.log.add(event{Ev: "cancel", Ctx: cl.ctxN})
 		cl.cancel() // let it go so that the case can finish
 		select {
 		case <-cl.done:
